@@ -202,6 +202,10 @@ func main() {
 		r.Rule("barrier-started rounds: 2..16 goroutines share one shim (built with shimagent.New in both upstream modes, or reached through real yubiagent.ServeAgent connections and clients), each issues up to 6 operations from {list, signers, sign, sign with hardware cert, add, remove, remove-all, add-hardware-cert, lock, unlock, extension, raw forward, an add-identity request relayed as raw bytes, sign through a hardware-certificate signer handed out by Signers() before the barrier}; between construction and the barrier a feeder puts already-expired certificates and fresh YSSHCA certificates directly into the keyring so that purging and cache fills happen during the concurrent phase; the underlying agent delays replies by 0..2 ms (seeded). Monitors: race detector (reports touching repository code), pipelined requests on the single upstream connection, reply/request tag matching and signature verification, porcupine linearizability of the recorded history against a sequential model (state = tracked plain keys x tracked hardware certificates x lock), completion watchdog. distinct_nontrivial = distinct rounds (by recorded history) in which at least two operations of different clients overlapped in time")
 		r.Assume("sampled schedules only", "the concurrent phase never removes a plain key that backs a tracked hardware certificate except through remove-all, and never locks the keyring directly, so the model stays deterministic", "signers for identities of the underlying agent (which talk to it directly by design) are not used concurrently; hardware-certificate signers are")
 		gen.Pool()
+		var swg sync.WaitGroup
+		swg.Add(1)
+		go func() { defer swg.Done(); slowUpstream(r) }()
+		defer swg.Wait()
 		rounds := r.Pick(300, 6000)
 		overlap := map[string]int{}
 		var omu sync.Mutex
